@@ -169,6 +169,12 @@ def gen_cases(ctx):
     # magnitude of the gradients for hist == "scale" (ridge / epsilon handling is scale dependent)
     c["gscale"] = rng.choice([2.0 ** -10, 1e-3, 1e-2, 1e2, 1e3, 2.0 ** 10])
     cases.append(c)
+  # the same documented math under jax.pmap (2 replicas, replicated inputs): trees with more statistics
+  # than devices, compared replica by replica with the un-pmapped run the model validates (added after a
+  # seeded change that dealt the statistics to the devices in a different order was missed here)
+  for c in cases[:8 if quick else 80]:
+    if len(c["shapes"]) >= 2 and not c["eigh"]:
+      c["pmap"] = 2
   return cases
 
 
@@ -176,7 +182,7 @@ def run_impl(cases):
   n = common.NPROC
   chunks = [c for c in (cases[i::n] for i in range(n)) if c]
   res = common.run_workers_parallel("harness.impl.c02_worker", [dict(cases=c) for c in chunks],
-                                    x64=True, timeout=3000)
+                                    x64=True, devices=2, timeout=3000)
   return [r for o in res for r in o["results"]]
 
 
@@ -228,6 +234,15 @@ def report(ctx, results, verdicts):
                                             theorem_or_check="harness/impl/c02_worker.py"))
       continue
     ctx.case(key, True, sample=dict(case=c) if ctx.cov["evaluations"] % 37 == 0 else None)
+    pm = r.get("pmap")
+    if pm and "worst" in pm:
+      ctx.count("pmap runs compared with the plain run")
+      if not pm["worst"] <= 1e-3 and ("pmap",) not in seen:
+        seen.add(("pmap",))
+        ctx.violation("impl-violates", dict(
+            input=c, expected="under jax.pmap every replica's update equals the update of the un-pmapped run "
+            "(which the model validates) to 1e-3 relative", actual=pm,
+            theorem_or_check="pmap replica vs plain run (harness/impl/c02_worker.py:pmap_vs_plain)"))
     for k in ("graft", "beta2", "ptype", "expo", "nesterov", "dec_lr", "dec_wd", "eigh", "best_effort"):
       ctx.count("%s=%s" % (k, c[k]))
     # structural: update tree like params
